@@ -89,6 +89,9 @@ def cell_expr(rng, cell, b):
         up = c[3] == "U"
         Lm = lower(rng, b, int(c[4:]))
         return {"cls": "Triangular", "t": T(Lm.mT if up else Lm), "upper": up}
+    if c == "SingDense4":                   # dense-backed singular PSD operator (rank 2 of 4): base-class eigen routes
+        X = gauss(rng, *b, 4, 2)
+        return {"cls": "Dense", "t": T(X @ X.mT)}
     if c == "Toeplitz4":
         col = torch.tensor([4.0, 1.0, 0.5, 0.25], dtype=F64) + unif(rng, 0.0, 0.2, *b, 4)
         return {"cls": "Toeplitz", "col": T(col)}
@@ -161,6 +164,13 @@ def cell_expr(rng, cell, b):
         if b:
             return {"cls": "BatchRepeat", "base": kron(rng, [1] * len(b), [2, 3]), "rep": list(b)}
         return {"cls": "BatchRepeat", "base": kron(rng, [], [2, 3]), "rep": [2]}
+    if c in ("MixDense3", "MixDense2"):
+        # a batch MIXING well-conditioned p.d. members with an exactly singular PSD member (integer rank-one matrix: the
+        # second pivot is exactly 0 for LAPACK and for the model kernel alike): member-wise jitter of psd_safe_cholesky
+        v = [float(rng.choice([1, 2, -1, -2, 3])) for _ in range(4)]
+        S = torch.tensor(v, dtype=F64).unsqueeze(-1) @ torch.tensor(v, dtype=F64).unsqueeze(-2)
+        mem = [spd(rng, [], 4), S, spd(rng, [], 4)] if c == "MixDense3" else [S, spd(rng, [], 4)]
+        return {"cls": "Dense", "t": T(torch.stack(mem))}
     if c == "RepeatBatch":                  # base already batched (2,), repeated to (2*?,)
         return {"cls": "BatchRepeat", "base": dense(rng, [2], 3), "rep": [2]}
     raise ValueError(cell)
@@ -174,11 +184,22 @@ PD_CELLS = ["Dense1", "Dense2", "Dense3", "Dense5", "Toeplitz4", "Sum4",
             "AddedDiagC", "AddedDiagD", "AddedDiagKronC", "ConstMulDense", "ConstMulKron", "ConstMulScalar",
             "BlockDiag3x2", "BlockDiag1x3", "BlockDiagKron", "BlockDiagDiag", "BlockInter3x2", "BlockInter2x3",
             "RepeatDense", "RepeatKron", "RepeatBatch"]
-SINGULAR_CELLS = ["RootLow", "AddedDiagLowC"]       # RootLow is singular PSD; AddedDiagLowC is p.d. over a singular base
+SINGULAR_CELLS = ["RootLow", "AddedDiagLowC", "SingDense4"]   # singular PSD; AddedDiagLowC is p.d. over a singular base
 CHOLU_CELLS = ["CholU4"]
 TRI_CELLS = ["TriL3", "TriU3"]
 # cells whose own batch shape is fixed by construction
 FIXED_BATCH = {"RepeatBatch": [()], "ConstMulScalar": [(), (2,)]}
+# batches mixing p.d. and singular members: cell -> (batch shape, indices of the singular members)
+MIX_CELLS = {"MixDense3": ((3,), [1]), "MixDense2": ((2,), [0])}
+# operators queried through histories that SHARE them with composites built by add_jitter (shared memoize caches)
+HIST_CELLS = ["Dense3", "Dense5", "Toeplitz4", "Sum4", "Kron23", "Kron222", "BlockDiag3x2", "ConstMulDense", "AddedDiagC",
+              "KPADconst"]
+HIST_BATCHED = ("Dense3", "Kron23", "AddedDiagC")
+HIST_Q = [("svd", None, False), ("eigh", None, False), ("root", None, False), ("root", "symeig", False),
+          ("root_inv", None, False), ("cholesky", None, False), ("diag", None, False)]
+# operators extended by cat_rows (which fills the root / inverse-root caches of the concatenated operator)
+CAT_CELLS = ["Dense5", "Dense3", "Kron23", "BlockDiag3x2", "Diag4", "ConstMulDense", "Toeplitz4"]
+CAT_BATCHED = ("Dense3", "Kron23")
 
 ROOT_METHODS = [None, "cholesky", "symeig", "diagonalization", "svd", "lanczos", "pivoted_cholesky", "bogus"]
 ROOTINV_METHODS = [None, "cholesky", "symeig", "diagonalization", "svd", "lanczos", "pinverse", "bogus"]
@@ -209,9 +230,11 @@ def enumerate_grid(quick=True):
     """deterministic list of grid items {cell, batch, op, method, upper, mcs, mrs, fast, inject, pre}"""
     items = []
 
-    def add(cell, batch, q, mcs=800, mrs=100, fast=True, inject=(), pre=()):
-        items.append({"cell": cell, "batch": list(batch), "op": q[0], "method": q[1], "upper": q[2],
-                      "mcs": mcs, "mrs": mrs, "fast": fast, "inject": list(inject), "pre": list(pre)})
+    def add(cell, batch, q, mcs=800, mrs=100, fast=True, inject=(), pre=(), **extra):
+        it = {"cell": cell, "batch": list(batch), "op": q[0], "method": q[1], "upper": q[2],
+              "mcs": mcs, "mrs": mrs, "fast": fast, "inject": list(inject), "pre": list(pre)}
+        it.update(extra)
+        items.append(it)
 
     batches_more = [(1,), (2, 3)]
     sizes = {c: cell_size(c) for c in PD_CELLS + SINGULAR_CELLS + CHOLU_CELLS + TRI_CELLS}
@@ -272,6 +295,8 @@ def enumerate_grid(quick=True):
             for q in [("root", "symeig", False), ("root", "svd", False), ("root", "diagonalization", False), ("root", None, False),
                       ("eigh", None, False), ("eigvalsh", None, False), ("svd", None, False), ("t_svd", None, False),
                       ("diag", "symeig", False)]:
+                if cell == "SingDense4" and q[1] is None and q[0] == "root":
+                    continue      # the default is the Cholesky route: psd_safe_cholesky adds its documented jitter (C16)
                 add(cell, b, q)
     for cell in CHOLU_CELLS:
         for b in [(), (2,)]:
@@ -284,6 +309,27 @@ def enumerate_grid(quick=True):
                       ("root_inv", "lanczos", False)]:
                 add(cell, b, q)
                 add(cell, b, q, mcs=0)
+    # F. histories on SHARED objects: a query on op.add_jitter(c) (a composite that keeps `op` as its inner operator), then
+    #    the query on `op` itself / on a second composite of the same `op` / composite after `op` — nothing a composite
+    #    computes may corrupt what its inner operator (or a sibling composite) returns later
+    for cell in HIST_CELLS:
+        for b in ([(), (2,)] if cell in HIST_BATCHED else [()]):
+            for q in HIST_Q:
+                for first, target in (("jitter:0.75", "self"), ("jitter:0.75", "jitter:2.0"), ("self", "jitter:0.75")):
+                    add(cell, b, q, kind="hist", steps=[[first, q[0], q[1], q[2]]], target=target)
+    # G. batches mixing p.d. members with a singular member, Cholesky-route queries (member-wise jitter), also under
+    #    settings.cholesky_jitter(double_value=1e-4)
+    for cell, (b, sing) in MIX_CELLS.items():
+        for q in [("cholesky", None, False), ("cholesky", None, True), ("t_cholesky", None, False), ("root", None, False),
+                  ("root", "cholesky", False), ("root_inv", None, False), ("root_inv", "cholesky", False)]:
+            for cj in (None, 1e-4):
+                add(cell, b, q, kind="mixed", singular=list(sing), cj=cj)
+    # H. cat_rows: C = [[A, B^T], [B, D]] with a NON-negligible cross block; the root / inverse root it caches for C
+    for cell in CAT_CELLS:
+        for b in ([(), (2,)] if cell in CAT_BATCHED else [()]):
+            for o in (1, 2):
+                for q in [("root", None, False), ("root_inv", None, False), ("cholesky", None, False), ("svd", None, False)]:
+                    add(cell, b, q, kind="catrows", o=o)
     if not quick:
         # thorough: every cell x every query at every batch shape, settings on both sides
         for cell in PD_CELLS:
@@ -311,7 +357,15 @@ def enumerate_grid(quick=True):
 
 
 def instantiate(rng, item):
-    expr = cell_expr(rng, item["cell"], item["batch"])
+    kind = item.get("kind", "plain")
+    expr = cell_expr(rng, item["cell"], [] if kind == "mixed" else item["batch"])
     case = dict(item)
     case["expr"] = expr
+    if kind == "catrows":
+        # new rows with a cross block of the size of the entries of A; D = B A^-1 B^T + (well-conditioned SPD) keeps C p.d.
+        A = opbuild.dense(expr, F64)
+        n, o, b = A.shape[-1], int(item["o"]), list(A.shape[:-2])
+        B = 0.4 * gauss(rng, *b, o, n)
+        D = B @ torch.linalg.solve(A, B.mT) + spd(rng, b, o)
+        case["B"], case["D"] = T(B), T((D + D.mT) / 2)
     return case
